@@ -44,7 +44,13 @@ func (c02) Phases(env run.Env) []run.Phase {
 func (c02) Run(c *run.Ctx, phase, idx int) {
 	a, part := c02Corpus(c.Env).Get(c.Env, idx)
 	T := tname(int(a.Type))
-	pkt, err := bind.Build(a)
+	r := rng(c.Env, "C02build", phase, idx)
+	if r.Chance(1, 4) {
+		noise(r)
+		c.Count("history", "noise-before-build", 1)
+	}
+	pkt, err, how := buildMaybeStaged(r, a)
+	c.Count("history", "build-"+how, 1)
 	if err != nil {
 		if errors.Is(err, bind.ErrNoSetter) {
 			c.Count("skipped", "no-setter/"+T, 1)
